@@ -281,6 +281,10 @@ func runC18(c *Ctx) {
 		}
 	}
 
+	c.Rule("C18-D10", "one occurrence, one run — also after Connect was called twice (F43): the registrations of the socket's handlers on its manager in clientSocket.registerSubEvents are made under activeMu and "+
+		"only while they do not exist yet (subDeregister is nil / active is false)", 3)
+	subEventsRegisteredOnce(c, "C18-D10")
+
 	// ---------------------------------------------------------------- D9
 	c.Rule("C18-D9", "the handler set of an occurrence is fixed at the occurrence: every call of eventHandlerStore.getAll / handlerStore.getAll is made on the delivering goroutine, not inside a function literal that "+
 		"is started with `go` — taken later, the set misses a handler that was registered at the occurrence and removed before the goroutine ran, and includes (and consumes) a Once handler registered after it", 3)
